@@ -771,6 +771,12 @@ func (sc *specCtx) call(e *CCall) Val {
 			return &Term{"(s-ref " + x.S + ")", SRef, nil}
 		}
 		return x
+	case "pow2":
+		a := sc.solo(arg(0))
+		if vc.mode == "bv" {
+			return &Term{"(bvshl " + vc.bigLit(big.NewInt(1), bvBits(a.Sort)) + " " + a.S + ")", a.Sort, a.T}
+		}
+		return &Term{"(pow2 " + a.S + ")", "Int", nil}
 	case "update":
 		// update(a, i, v): array a with element i replaced by v
 		a := arg(0)
